@@ -262,3 +262,23 @@ Definition u3_block (l : list stmt) : bool := forallb u3_top l.
 Definition dx_stmt (x : stmt) : bool := match x with SExpr _ e => s1_expr e | _ => false end.
 Definition dx_doc (d : docstring) : bool := forallb dx_stmt (fst d).
 Definition dx_docs (p : program) : bool := forallb dx_doc (docstrings_of p).
+
+(* ---------- imports anywhere, but of the simple kind (the erasure argument of Stage2Erase needs only this) ---------- *)
+(* every import statement inside binds one-component keys and is not a __future__ import *)
+Fixpoint ui_stmt (x : stmt) : bool :=
+  let blk := fix blk (l : list stmt) : bool := match l with [] => true | y :: r => ui_stmt y && blk r end in
+  match x with
+  | SImport _ items => forallb u1_import_item items
+  | SImportFrom _ m items => not_future m && forallb s1_from_item items
+  | SDef _ _ _ _ _ body => blk body
+  | SClass _ _ _ _ _ body => blk body
+  | SFor _ _ _ b o => blk b && blk o
+  | SWhile _ _ b o => blk b && blk o
+  | SIf _ _ b o => blk b && blk o
+  | SWith _ _ b => blk b
+  | STry _ b hs o f =>
+      blk b && (fix hl (l : list handler) : bool := match l with [] => true | Handler _ _ _ hb :: r => blk hb && hl r end) hs
+      && blk o && blk f
+  | _ => true
+  end.
+Definition ui_block (l : list stmt) : bool := forallb ui_stmt l.
